@@ -154,6 +154,12 @@ def matrix():
                     ', '.join('%s: %s' % (r['check'], 'caught (%d)' % r['violations'] if r['caught'] else 'MISSED') for r in m['checks_run'])))
     txt = '# Seeded changes and the checks that catch them\n\nEvery row: a change that compiles, passes the repository\'s own tests and breaks the named property (demonstration in the directory). Quick tier, VERIF_SEED=1, run against a scratch worktree with the patch applied.\n\n| id | property | change | files | result |\n|---|---|---|---|---|\n' + '\n'.join(rows) + '\n'
     open(SEEDED + '/MATRIX.md', 'w').write(txt)
+    d = open('/verif/DESIGN.md').read()
+    if '<!-- SEEDED-BEGIN -->' in d:
+        a, b = d.index('<!-- SEEDED-BEGIN -->'), d.index('<!-- SEEDED-END -->')
+        body = '| id | property | change | result |\n|---|---|---|---|\n' + '\n'.join('| %s | %s | %s | %s |' % tuple(r.split(' | ')[i].strip('| ') for i in (0, 1, 2, 4)) for r in rows)
+        d = d[:a] + '<!-- SEEDED-BEGIN -->\n' + body + '\n' + d[b:]
+        open('/verif/DESIGN.md', 'w').write(d)
     print(txt)
 
 
